@@ -132,7 +132,14 @@ class NewGen:
                 ty, _ = self.rng.choice(PALETTE[:3])
                 sm.append({"k": "f", "name": n, "type": ty, "new": False, "def": None, "tagskip": False})
             for j in range(self.rng.randint(0, 2)):
-                sm.insert(self.rng.randint(0, len(sm)), {"k": "f", "name": "sx%d_%d" % (self.ename, j), "type": "int", "new": False,
+                # an unexported field of the foreign struct: another identifier than any own-package field of the same spelling
+                # (it hides nothing and is hidden by nothing); half of them are spelled like ordinary field names on purpose
+                fname = "sx%d_%d" % (self.ename, j)
+                if self.rng.random() < 0.5:
+                    cand = [n for n in FIELD_NAMES if not is_exported(n) and not n.startswith("_") and all(x["name"] != n for x in sm)]
+                    if cand:
+                        fname = self.rng.choice(cand)
+                sm.insert(self.rng.randint(0, len(sm)), {"k": "f", "name": fname, "type": "int", "new": False,
                                                          "def": None, "tagskip": False, "foreign_unexported": True})
             e = {"k": "e", "decl": {"name": sname, "tparams": [], "typedoc": None, "members": sm, "pkg": "sub"},
                  "ptr": self.rng.random() < 0.4, "new": opts.get("new") and self.rng.random() < opts["new"], "pkg": "sub"}
@@ -469,6 +476,17 @@ def instantiate(s):
 # S-expression payloads for the Lean driver
 # ------------------------------------------------------------------------------------------------
 
+def foreign_names(s, out=None):
+    """spellings of the unexported fields of foreign embedded structs in s"""
+    out = out if out is not None else set()
+    for m in s["members"]:
+        if m["k"] == "f" and m.get("foreign_unexported"):
+            out.add(m["name"])
+        elif m["k"] == "e":
+            foreign_names(m["decl"], out)
+    return out
+
+
 def field_has_doc(m):
     return bool(m.get("new") or m.get("get") or m.get("set") or m.get("def") is not None or m.get("hasdoc"))
 
@@ -481,7 +499,9 @@ def members_sexp(s, top=True):
     out = []
     for m in s["members"]:
         if m["k"] == "f":
-            item = ["f", Q(m["name"]), Q(m["type"])]
+            # the model sees a foreign unexported field under its package-qualified name (Go: identifiers of different packages
+            # are different identifiers); the drivers print leaf keys without the qualifier
+            item = ["f", Q(("sub." if m.get("foreign_unexported") else "") + m["name"]), Q(m["type"])]
             if m.get("new"):
                 item.append("new")
             if skip_of(m, top):
